@@ -33,6 +33,12 @@ def opsOK : List Op :=
   [.addStatic mA 20 alpha, .discover mB, .request mB 2 true 10 0 [98], .discover mC, .request mC 2 true 11 0 [99],
    .sleep 5, .discover [2, 0, 0, 0, 0, 4]]
 
+/-- Mixed hardware-address lengths: three 8-byte clients fill the pool, then a
+6-byte client whose address is the prefix of the second one's sends DISCOVER. -/
+def opsMixed : List Op :=
+  [.discover [2, 0, 0, 0, 0, 1, 7, 7], .discover [2, 0, 0, 0, 0, 2, 7, 7], .discover [2, 0, 0, 0, 0, 3, 7, 7],
+   .discover mB]
+
 /-! ### restart of a fully named table -/
 
 /-- What `resetLoop` needs of the records to re-add every one of them. -/
